@@ -722,6 +722,13 @@ class Engine:
                             if rest:
                                 return self.resolve_name_static(a.name, ".".join(rest))
                             return r
+                        try:        # a plain constant imported from the standard library (errno.EWOULDBLOCK, ...) is that constant
+                            import importlib
+                            cval = getattr(importlib.import_module(src), a.name)
+                            if isinstance(cval, (bool, int, str, bytes)) and not rest:
+                                return self.const(cval)
+                        except Exception:
+                            pass
                         return VFunc("external", name=src + "." + a.name)
             if isinstance(n, ast.Import):
                 for a in n.names:
